@@ -10,6 +10,7 @@ ROOT = os.path.dirname(os.path.dirname(os.path.dirname(
     os.path.abspath(__file__))))
 FUNCS = [('modeling.py', 'contracts.py.lin_spec', '_lin._addterm'),
          ('modeling.py', 'contracts.py.lin_spec', '_lin.__len__'),
+         ('modeling.py', 'contracts.py.lin_spec', '_lin.__getitem__'),
          ('modeling.py', 'contracts.py.function_spec', '_function.__imul__'),
          ('modeling.py', 'contracts.py.function_spec', '_function.__iadd__'),
          ('modeling.py', 'contracts.py.function_spec', '_function.__isub__'),
@@ -87,7 +88,7 @@ def make_replayer():
             want = ['sum-value']
         if ob.kind.startswith('key-'):
             want = ['key-value']
-        if ob.kind.startswith('index-'):
+        if ob.kind.startswith('index-') or ob.kind.startswith('lin-index-'):
             want = ['index-value', 'index-fresh', 'index-refuses']
         if ob.kind == 'len-value':
             want = ['len-value', 'addterm-value', 'addterm-exceptions']
@@ -160,7 +161,8 @@ def run(report, tier, seed):
         'every other operation of the expression algebra: _function '
         'arithmetic and '
         'curvature bookkeeping (_cvxterms / _ccvterms), _mul / _rmul, '
-        'indexing of _lin / variable, max / min / abs / dot, the '
+        'indexing of a variable (one line: (+self)[key]), max / min / abs / '
+        'dot, the '
         'binary (not in-place) forms, value() itself',
         'that the callers of _addterm (_lin.__add__, __iadd__, ...) pass a '
         'copy where required']
